@@ -80,7 +80,15 @@ def grammar_line(rng, exact_len=None):
     if rng.random() < 0.4:
         q = gen_query(rng)
     line = "gemini://" + host + ptxt + path + ("?" + q if q is not None else "")
-    if exact_len is not None:
+    if exact_len is not None and rng.random() < 0.35:
+        # the boundary with an EMPTY path: the handler sees "/" (one byte more than was sent), the line is as long as a line may be
+        path = ""
+        q = (q or "") + "q"
+        pad = exact_len - len(("gemini://" + host + ptxt + "?" + q).encode())
+        if pad > 0:
+            q = q + "q" * pad
+        line = "gemini://" + host + ptxt + "?" + q
+    elif exact_len is not None:
         pad = exact_len - len(line.encode())
         if pad > 0:
             path = path + "/" + "a" * (pad - 1) if pad >= 1 else path
@@ -225,7 +233,8 @@ class Lines(ConnFamily):
                 up = True
                 line, comps0 = grammar_line(rng)
                 line = line.split("?")[0]
-                size = rng.choice([0, 1, 3, 3, 10])
+                # small bodies, and bodies larger than a request line may be (the 1024-byte limit is about the LINE)
+                size = rng.choice([0, 1, 3, 3, 10, 1023, 1025, 1500, 3000]) if rng.random() < 0.8 else rng.choice([5000, 70000])
                 params = [f"size={size}"] + rng.sample(["mime=text/plain", "token=s3cret", "mime=text/gemini"], rng.randint(0, 2))
                 rng.shuffle(params)
                 b = ("titan" + line[6:] + ";" + ";".join(params)).encode()
@@ -241,7 +250,9 @@ class Lines(ConnFamily):
             if b.startswith(b"titan") and rng.random() < 0.7:
                 content = b"abc"
             if 0.4 <= r < 0.5:
-                content = bytes(rng.randrange(256) for _ in range(size)) + rng.choice([b"", b"", b"TRAILING"])
+                # binary content (large bodies: without CR/LF more often than not, so that nothing in them looks like a line end)
+                alphabet = bytes(range(256)) if size < 100 or rng.random() < 0.3 else bytes(x for x in range(256) if x not in (10, 13))
+                content = bytes(rng.choice(alphabet) for _ in range(size)) + rng.choice([b"", b"", b"TRAILING"])
                 crlf = True
             else:
                 titan_ok = None
